@@ -156,11 +156,17 @@ overlay is open, `transactions.go:327-500`):
     governance models that reach this line; "should never happen" in the source;
   * `err` — failure of `md.Publish(MessageRuntimeResumed)`; its only subscriber (roothash
     `onRuntimeResumed`… ) fails only on unavailable state.
-governance.submitProposal: the three sites follow `md.Publish(MessageValidateParameterChanges)`,
-  which the analysis conservatively counts as a write (subscribers only validate), and the read
-  `NextProposalIdentifier` (unavailable state only).  No write to layer 0 precedes them in fact.
-roothash.executorCommit / slashing / liveness, vault.executeAction/authorizeAction,
-staking.changeParameters: see the per-site comments in `expected`.
+governance.submitProposal: the first two sites follow `md.Publish(MessageValidateParameterChanges)`,
+  which the analysis conservatively counts as a write (subscribers only validate: no write to layer 0
+  precedes them in fact); the third (`NextProposalIdentifier`) DOES follow `TransferToGovernanceDeposits`
+  and is safe only because that read fails on unavailable state alone.
+roothash.executorCommit / liveness / slashing (message roots), vault.executeAction/authorizeAction,
+staking.changeParameters, governance castVote: site-by-site reading with file:line citations and a verdict
+per site in `docs/review-c08-flagged-sites.md` (an independent re-examination made after the
+justification of the `submitEvidence` site had turned out wrong, fix 39f3084): no other site is reachable
+with state left behind; two sites (`castVote`, `onNewRuntime`) are artefacts of how `return nil, f()` is
+translated; roothash runtime-message delivery and governance proposal execution have NO per-message
+overlay, so the safety of their callees' sites rests on the callee alone.
 -/
 def expected : List (String × List String) := [
   ("staking_state_AuthenticateAndPayFees", []),
